@@ -14,7 +14,8 @@ CONSTANTS Family, Shard, NShards, Budget, LCap,
 RSLits == {<<sc>>, <<sa,sb>>, <<sc,sc>>, <<sa,sb,sa>>, <<sdot,sa>>, <<sc,sx>>}
 RSWild == {Star(Dot,TRUE), Plus(Dot,TRUE), Star(DotS,TRUE), Plus(Cls({sa,sb}),TRUE), Plus(NCls({sx}),TRUE),
            Plus(Cls({sa,sb,sc}),TRUE), Rep(Cls({sa,sb}),2,2,TRUE), Rep(Cls({sa,sc}),1,2,TRUE), Rep(Lit(sx),1,3,TRUE),
-           Rep(Dot,1,2,TRUE)}
+           Rep(Dot,1,2,TRUE),
+           Rep(Cls({sa,sc}),1,3,TRUE)}     \* a bounded class that contains the suffix bytes and reaches across a resume position
 RSHead == {Lit(sa), Quest(Lit(sa),TRUE), Alt(Lit(sa), LitStr(<<sa,sb>>)), Alt(Cat(LitStr(<<sa,sb>>), Dot), Lit(sb)),
            Cls({sa,sb}), Alt(LitStr(<<sa,sb>>), Lit(sa)), Star(Lit(sa),TRUE), Cap(Alt(Cat(Lit(sa), Dot), Lit(sb)))}
 RSMid  == {Dot, Quest(Lit(sa),TRUE), Alt(Lit(sa), LitStr(<<sa,sc>>)), Cls({sa,sc}), Star(Lit(sc),TRUE), Plus(Dot,TRUE),
